@@ -23,7 +23,7 @@ RULES = {
     'R9': 'printing a dump uses a ring of its own: the name qb_rb_create_from_file gives to qb_rb_open is not a constant (it contains the process id), so that two printers at the same time do not meet in each other\'s files and leave one behind',
     'R7': 'the reader takes what the writer can store: the largest message length the printer accepts and the text buffer it decodes into are not below the largest max_line_length a target can be given (C13.R4), and the record buffer is not of a constant size (the function name in a record has no bound) but measured on the ring just opened, and that measure is only ever raised by a constant, not capped',
 }
-FLOORS = {'R1': 9, 'R2': 12, 'R3': 2, 'R4': 9, 'R5': 6, 'R6': 12, 'R7': 4, 'R8': 4, 'R9': 1}
+FLOORS = {'R1': 9, 'R2': 12, 'R3': 2, 'R4': 9, 'R5': 7, 'R6': 12, 'R7': 4, 'R8': 4, 'R9': 1}
 
 
 def run(ctx):
@@ -398,9 +398,30 @@ def _r5_minimum(ctx):
                   'the reader refuses a record shorter than name length + %d bytes, the writer stores name length + %d plus a message of at least 1 byte: a record with an empty message is taken for a corrupt one, it and every later record are not printed' % (k, fixed))
 
 
+def _r5_size_test(ctx):
+    """the loader accepts every file the dumper can leave: the dump is written over whatever the file held (no truncation), so a file
+    may be longer than the dump in it - the test of word_size against the file size refuses a file that is too short, nothing else"""
+    prog = ctx.prog
+    f = prog.fn('qb_rb_create_from_file')
+    tests = []
+    for b in f.blocks.values():
+        c = unwrap(b.cond) if b.cond else None
+        for (l, o, r) in cmp_forms(c) if c else []:
+            names = {n.get('f') or n.get('n') for n in list(walk(l)) + list(walk(r)) if n.get('k') in ('mem', 'var')}
+            if 'st_size' in names and any('word_size' in str(x) for x in names):
+                tests.append((b, o))
+    if not tests:
+        raise AnalysisBroken('qb_rb_create_from_file: word_size is not compared with the file size')
+    bad = [(b, o) for (b, o) in tests if o in ('!=', '==')]
+    ctx.check('R5', 'record:loader-refuses-only-files-that-are-too-short', not bad, '%s:%d (%s)' % (f.file, (bad or tests)[0][0].term_ln, f.name),
+              'word_size is compared with the file size one-sidedly (too short is refused)',
+              'qb_rb_create_from_file wants the file size to match word_size exactly: qb_rb_write_to_file does not truncate, so a dump written over an older, longer one (a smaller blackbox, a file left behind) cannot be loaded at all - every record of the newer dump is lost')
+
+
 def r5(ctx):
     prog = ctx.prog
     _r5_minimum(ctx)
+    _r5_size_test(ctx)
     w = prog.fn('qb_rb_write_to_file')
     r = prog.fn('qb_rb_create_from_file')
     worder = []
